@@ -1,17 +1,21 @@
 #!/bin/sh
-# usage: tools_harmless.sh [tier]  — apply ALL stored behaviour-preserving refactorings (harmless/*.diff) to /repo at once and
-# run every property check: no check may print VIOLATION. /repo must be clean; it is restored afterwards.
+# usage: tools_harmless.sh [tier]  — apply the stored behaviour-preserving refactorings to /repo (all of harmless/*.diff at once,
+# then all of harmless2/*.diff at once: the two sets touch the same functions) and run every property check on each:
+# no check may print VIOLATION. /repo must be clean; it is restored afterwards.
 cd "$(dirname "$0")"
 tier=${1:-quick}
 [ -z "$(git -C /repo status --short)" ] || { echo "/repo is not clean"; exit 2; }
-for p in harmless/*.diff; do git -C /repo apply "$PWD/$p" || { echo "$p does not apply"; git -C /repo checkout -- .; exit 2; }; done
 bad=0
-for id in C01 C02 C03 C04 C05 C06 C07 C08 C09 C10 C11 C12 C13 C14 C15 C16 C17 C18 C19 C20; do
-  out=$(./check $id --tier $tier 2>&1); n=$(echo "$out" | grep -c "^VIOLATION")
-  echo "$out" | tail -1
-  [ "$n" -ge 1 ] && { bad=1; echo "$out" | grep "^VIOLATION"; }
+for set in harmless harmless2; do
+  for p in $set/*.diff; do git -C /repo apply "$PWD/$p" || { echo "$p does not apply"; git -C /repo checkout -- .; exit 2; }; done
+  echo "== $set applied"
+  for id in C01 C02 C03 C04 C05 C06 C07 C08 C09 C10 C11 C12 C13 C14 C15 C16 C17 C18 C19 C20; do
+    out=$(./check $id --tier $tier 2>&1); n=$(echo "$out" | grep -c "^VIOLATION")
+    echo "$out" | tail -1
+    [ "$n" -ge 1 ] && { bad=1; echo "$out" | grep "^VIOLATION"; }
+  done
+  git -C /repo checkout -- .
 done
-git -C /repo checkout -- .
 git checkout -q -- evidence 2>/dev/null    # evidence written on the patched tree is not kept
 [ $bad = 0 ] && echo "harmless: no alarm" || echo "harmless: ALARM"
 exit $bad
